@@ -275,6 +275,26 @@ pub async fn run_cases(
     for case in cases {
         let backend: &'static str = if case["backend"] == "db" { "db" } else { "fs" };
         let label = case["crash"].as_str().unwrap_or("");
+        if label.ends_with(":torn") {
+            if !bases.contains_key(backend) {
+                match make_base(scratch, backend).await {
+                    Ok(b) => {
+                        bases.insert(backend.to_string(), b);
+                    }
+                    Err(e) => {
+                        eprintln!("creating the base account failed: {e:?}");
+                        out.count("harness_case_errors", 1);
+                        continue;
+                    }
+                }
+            }
+            let base = bases.get(backend).unwrap();
+            if let Err(e) = run_torn_case(case, base, scratch, child, out, known).await {
+                eprintln!("torn case could not be set up: {e:?}");
+                out.count("harness_case_errors", 1);
+            }
+            continue;
+        }
         let Some((probe, nth)) = probe_of(label, backend) else {
             out.count("crash_points_without_probe", 1);
             continue;
@@ -490,5 +510,167 @@ pub async fn run_cases(
             out.sample(json!({"backend": backend, "hist": hist, "crash": label, "probe": probe}));
         }
     }
+    Ok(())
+}
+
+
+fn event_files(dir: &Path) -> BTreeMap<std::path::PathBuf, u64> {
+    fn walk(p: &Path, out: &mut BTreeMap<std::path::PathBuf, u64>) {
+        if let Ok(rd) = std::fs::read_dir(p) {
+            for e in rd.flatten() {
+                let path = e.path();
+                if path.is_dir() {
+                    walk(&path, out);
+                } else if path.extension().map(|x| x == "events").unwrap_or(false) {
+                    out.insert(path.clone(), e.metadata().map(|m| m.len()).unwrap_or(0));
+                }
+            }
+        }
+    }
+    let mut out = BTreeMap::new();
+    walk(dir, &mut out);
+    out
+}
+
+async fn run_child(child: &Path, dir: &Path, base: &Base, hist: &[Value]) -> Result<()> {
+    let status = tokio::process::Command::new(child)
+        .arg(dir)
+        .arg("fs")
+        .arg(&base.account_id)
+        .arg(&base.password)
+        .arg(serde_json::to_string(hist)?)
+        .arg("none")
+        .arg("1")
+        .stderr(std::process::Stdio::null())
+        .status()
+        .await?;
+    if !status.success() {
+        return Err(anyhow!("the child did not complete the history: {status:?}"));
+    }
+    Ok(())
+}
+
+/// `<op>:torn` of Crash.tla: the process dies inside the append of the record of
+/// the last operation to the folder's event log file; every byte prefix of the
+/// appended region (a sample of them unless VERIF_TORN_ALL is set) is one crashed
+/// state, re-opened through the normal path.
+async fn run_torn_case(
+    case: &Value,
+    base: &Base,
+    scratch: &Path,
+    child: &Path,
+    out: &mut Summary,
+    known: &[String],
+) -> Result<()> {
+    let backend = "fs";
+    let label = case["crash"].as_str().unwrap_or("");
+    let hist = case["hist"].as_array().cloned().unwrap_or_default();
+    let Some((last, prefix)) = hist.split_last() else { return Ok(()) };
+    let dir = scratch.join(format!("torn{}", out.evaluated));
+    let _ = std::fs::remove_dir_all(&dir);
+    copy_dir_all(&base.dir, &dir)?;
+    out.evaluated += 1;
+    if !prefix.is_empty() {
+        run_child(child, &dir, base, prefix).await?;
+    }
+    let before = event_files(&dir);
+    run_child(child, &dir, base, std::slice::from_ref(last)).await?;
+    let after = event_files(&dir);
+    let grown: Vec<_> = after
+        .iter()
+        .filter(|(p, n)| before.get(*p).map(|b| b < *n).unwrap_or(false))
+        .map(|(p, n)| (p.clone(), before[p], *n))
+        .collect();
+    if grown.len() != 1 {
+        let _ = std::fs::remove_dir_all(&dir);
+        return Err(anyhow!("expected exactly one event log to grow, got {}", grown.len()));
+    }
+    let (file, l0, l1) = grown[0].clone();
+    let rel = file.strip_prefix(&dir)?.to_path_buf();
+    let all = std::env::var("VERIF_TORN_ALL").is_ok();
+    let mut cuts: Vec<u64> = if all {
+        ((l0 + 1)..l1).collect()
+    } else {
+        let mid = (l0 + l1) / 2;
+        let mut v = vec![l0 + 1, l0 + 3, l0 + 4, l0 + 5, l0 + 12, l0 + 44, mid, l1 - 9, l1 - 5, l1 - 4, l1 - 3, l1 - 1];
+        v.retain(|n| *n > l0 && *n < l1);
+        v.sort();
+        v.dedup();
+        v
+    };
+    cuts.dedup();
+    out.count("torn_region_bytes", l1 - l0);
+    let slots = SlotMap::load(&dir);
+    let crashing_slot = last[1].as_str().unwrap_or("none").to_string();
+    let spec_ok = case["opens"] == true && case["logBeforeOrAfter"] == true && case["folderEqReplay"] == true;
+    for n in cuts {
+        let cdir = scratch.join(format!("torn{}_{n}", out.evaluated));
+        let _ = std::fs::remove_dir_all(&cdir);
+        copy_dir_all(&dir, &cdir)?;
+        {
+            let f = std::fs::OpenOptions::new().write(true).open(cdir.join(&rel))?;
+            f.set_len(n)?;
+            f.sync_all()?;
+        }
+        out.steps += 1;
+        out.nontrivial_keys.push(format!("fs|{label}|{}|{}", serde_json::to_string(&hist)?, n - l0));
+        let mut failures: Vec<(&'static str, String)> = Vec::new();
+        let opened = {
+            let cdir2 = cdir.clone();
+            let id = base.account_id.clone();
+            let pw = base.password.clone();
+            // a panic of the code under test is an outcome
+            tokio::spawn(async move { open_account(&cdir2, "fs", &id, &pw).await }).await
+        };
+        match opened {
+            Err(e) => failures.push(("open_panics", format!("opening the account panics: {e}"))),
+            Ok(Err(e)) => failures.push(("unopenable", format!("the account cannot be opened: {e}"))),
+            Ok(Ok((mut account, folder))) => {
+                let mut c02 = Vec::new();
+                if let Err(e) =
+                    crate::account_world::c02_for_folder(&account, backend, "d", &folder, account.account_id(), &mut c02).await
+                {
+                    c02.push(format!("folder cannot be compared: {e}"));
+                }
+                if let Some(first) = c02.into_iter().next() {
+                    failures.push(("folder_ne_log", first));
+                }
+                match log_shape(&account, &folder, &slots, &crashing_slot).await {
+                    Ok(shape) => {
+                        let n_before = case["base_len"].as_u64().unwrap_or(0) as usize;
+                        let n_after = case["after_len"].as_u64().unwrap_or(0) as usize;
+                        if shape.len() != n_before && shape.len() != n_after {
+                            failures.push(("log_partial", format!(
+                                "the folder log has {} events: neither the {n_before} before nor the {n_after} after the operation",
+                                shape.len()
+                            )));
+                        }
+                    }
+                    Err(e) => failures.push(("log_unreadable", format!("the folder log cannot be read: {e}"))),
+                }
+                let _ = account.sign_out().await;
+            }
+        }
+        if failures.is_empty() {
+            out.count("torn_recovered", 1);
+        }
+        let mut keep = false;
+        for (class, text) in &failures {
+            let key = format!("crash:{backend}:{label}:{class}");
+            if !spec_ok && known.iter().any(|k| k == &key) {
+                out.known(&key, format!("{key}: {text}"));
+            } else {
+                out.violation(
+                    format!("{key} (append torn after {} of {} bytes) after {}: {text}", n - l0, l1 - l0, serde_json::to_string(&hist)?),
+                    json!({"case": case, "cut": n - l0, "key": key}),
+                );
+                keep = true;
+            }
+        }
+        if !keep {
+            let _ = std::fs::remove_dir_all(&cdir);
+        }
+    }
+    let _ = std::fs::remove_dir_all(&dir);
     Ok(())
 }
